@@ -31,6 +31,8 @@ import (
 	_ "verifsim/shapes/doc"
 	_ "verifsim/shapes/flat"
 	_ "verifsim/shapes/nested"
+	_ "verifsim/shapes/person"
+	_ "verifsim/shapes/rep3"
 )
 
 func main() {
@@ -106,6 +108,7 @@ func cmdWorker(args []string) int {
 				break
 			}
 			rs := propSeed(*seed, p.ID(), i)
+			res.Acc.Index = i
 			vios := p.Run(rs, *tier, res.Acc)
 			for j, v := range vios {
 				if j >= 2 {
@@ -216,6 +219,7 @@ func cmdFingerprint(args []string) int {
 	tier := fs.String("tier", "quick", "")
 	seed := fs.Uint64("seed", 1, "")
 	n := fs.Int("n", 4, "")
+	from := fs.Int("from", 0, "")
 	procs := fs.Int("procs", 1, "")
 	fs.Parse(args[1:])
 	p := props.Get(args[0])
@@ -226,7 +230,8 @@ func cmdFingerprint(args []string) int {
 	acc := props.NewAcc()
 	nv := 0
 	for i := 0; i < *n; i++ {
-		nv += len(p.Run(propSeed(*seed, p.ID(), i), *tier, acc))
+		acc.Index = *from + i
+		nv += len(p.Run(propSeed(*seed, p.ID(), *from+i), *tier, acc))
 	}
 	ck := ""
 	for _, k := range acc.SortedCounters() {
@@ -348,7 +353,7 @@ func cmdRun(args []string) int {
 	for i := 0; i < nSelf; i++ {
 		go func(i int) {
 			procs := []int{1, 4, 16}[i%3]
-			cmd := exec.Command(self, "fingerprint", p.ID(), "-tier", *tier, "-seed", fmt.Sprint(*seed), "-n", fmt.Sprint(selfRuns), "-procs", fmt.Sprint(procs))
+			cmd := exec.Command(self, "fingerprint", p.ID(), "-tier", *tier, "-seed", fmt.Sprint(*seed), "-n", fmt.Sprint(selfRuns), "-from", fmt.Sprint(total/2), "-procs", fmt.Sprint(procs))
 			o, err := cmd.Output()
 			stCh <- stRes{strings.TrimSpace(string(o)), err}
 		}(i)
